@@ -474,6 +474,14 @@ def main(argv=None) -> int:
                      seed_theorems, pool=vpool, unary_only=True, tag='chain')
     for t, w in known2.items():
         theorems.setdefault(t, w)
+    # a second chain closure over pending substitutions whose plug mentions the substituted variable itself
+    spool = (rm.evar(0), rm.svar(0), rm.ssub(rm.mv(2, E=(0,)), 0, rm.app(rm.sym(0), rm.svar(0))),
+             rm.esub(rm.mv(2), 0, rm.app(rm.evar(0), rm.evar(0))))
+    known3 = closure(chk, 4 if not thorough else 5, 17 if not thorough else 18, 0, 1500000 if not thorough else 6000000, agg,
+                     seed_theorems, pool=spool, unary_only=True, tag='selfplug')
+    for t, w in known3.items():
+        theorems.setdefault(t, w)
+    known2 = dict(known3, **known2)
     known = dict(known2, **known)
     agg['distinct_theorems'] = len(theorems)
     budget = 64 if not thorough else 512
